@@ -12,7 +12,8 @@ From Qryn Require Import model.TqSql model.Traceql model.TraceqlPlan model.Trace
      proofs.TraceqlBitsetProofs proofs.TraceqlAnalyzeProofs proofs.TraceqlEvalProofs proofs.TraceqlSelectorProofs
      proofs.TraceqlWfProofs model.TraceqlPortions proofs.TraceqlPortionsProofs
      model.TraceqlCase proofs.TraceqlIndexSearchProofs proofs.TraceqlIndexCorrectProofs proofs.TraceqlGroupedProofs
-     proofs.TraceqlTopkProofs proofs.TraceqlCorrectProofs proofs.TraceqlAggProofs proofs.TraceqlExamples.
+     proofs.TraceqlTopkProofs proofs.TraceqlCorrectProofs proofs.TraceqlAggProofs proofs.TraceqlExamples
+     proofs.TraceqlChainSem proofs.TraceqlChainSql proofs.TraceqlChainComb proofs.TraceqlChainProofs proofs.TraceqlChainPlan.
 Import ListNotations.
 Open Scope string_scope.
 
@@ -233,3 +234,86 @@ Theorem traceql_correct_single_refuted_without_span_cap :
                      /\ result_ok c (traceql_sem re_toy float_toy false c d (q1 e AONone)) res = false.
 Proof. exists c0, d101, e3. exact span_list_cut_witness. Qed.
 Print Assumptions traceql_correct_single_refuted_without_span_cap.
+
+(* ---------------------------------------------------------------- && / || between selectors
+
+   15. Layer "operand": the statement ComplexAndPlanner / ComplexOrPlanner wrap around operand number i,
+         WITH .. , _i_pre_ AS (<operand>, max(..) AS max_timestamp_ns)
+         SELECT trace_id, _span_id AS span_id, max_timestamp_ns [, i AS _op] FROM _i_pre_ ARRAY JOIN _i_pre_.span_id AS _span_id,
+       run by the evaluator over ANY typed content R of _i_pre_ (one row per trace: id, span ids, recency key), returns one row per
+       (trace, span) of R carrying the key of the trace and the operand number. *)
+Theorem wrapped_operand_evaluates : forall re_match parse_float hash64 tables rec cte (tagged : bool) (i : nat) (o : option string * select),
+  op_lit i ->
+  forall (cte2 : env) (R : list tres),
+  stage_with rec cte true (s_withs (wrap_operand tagged i o)) = Some cte2 ->
+  env_get (pre_alias i) cte2 = Some (map (orow_row true) R) ->
+  eval_body re_match parse_float hash64 tables rec cte true (wrap_operand tagged i o) = Some (map (wrow_row tagged) (wrap_rows i R)).
+Proof. exact wrap_eval. Qed.
+Print Assumptions wrapped_operand_evaluates.
+
+(* 16. Layer "UNION ALL, GROUP BY trace": the statement of ComplexAndPlanner (tagged, HAVING uniqExact(_op) = N) / ComplexOrPlanner,
+       over ANY typed content of its operands: one row per trace of the concatenation -- the distinct span ids of its rows (first 100),
+       the largest key -- for the groups whose rows carry N distinct operand numbers (&&) resp. all groups (||); ORDER BY
+       max(<p>a.max_timestamp_ns) DESC LIMIT k as the evaluator runs it. *)
+Theorem union_statement_evaluates : forall re_match parse_float hash64 tables rec cte (prefix : string) (tagged : bool) (N : nat)
+    (subs : list select) (Ws : list (list wrow)),
+  all_some (map (rec cte true) subs) = Some (map (map (wrow_row tagged)) Ws) ->
+  forall (wts top : bool) (lim : option expr),
+  eval_body re_match parse_float hash64 tables rec cte top (cstmt prefix tagged N subs wts lim)
+  = option_map (map (fun g => orow_row wts (cg g))) (lim_answer ckey (filter (cP tagged N) (group_rows same_wtr (List.concat Ws))) lim).
+Proof. exact complex_bridge. Qed.
+Print Assumptions union_statement_evaluates.
+
+(* 17. What those groups mean: for operand answers R0, R1 with unique trace ids, every trace with at least one span, all spans among
+       the (at most 100) spans ids t of that trace: the rows of the && statement are and_sem R0 R1 -- the traces present in BOTH, each
+       with the UNION of its span sets and the larger key -- and those of the || statement are or_sem R0 R1 -- the traces of EITHER --
+       up to deq (the order of traces and of span ids, which result_ok ignores). *)
+Theorem union_groups_are_and_or : forall ids : string -> list string,
+  (forall t, (List.length (ids t) <= 100)%nat) ->
+  forall (tagged : bool) (R0 R1 : list tres),
+  tnodup R0 -> tnodup R1 -> twf ids R0 -> twf ids R1 ->
+  deq (comb tagged R0 R1) (if tagged then and_sem R0 R1 else or_sem R0 R1).
+Proof. exact comb_is_sem. Qed.
+Print Assumptions union_groups_are_and_or.
+
+(* 18. planComplex (the pointer walk of planner.go over a chain  S1 op S2 op ...): the tree it returns has two operands per node, every
+       selector of it inside the guards, and its meaning (ep_sem: && = and_sem, || = or_sem of the operands) is the reference meaning of
+       the chain (traceql_sem: && binds tighter than ||) up to deq -- the planner nests a run of || to the left, the reference to the
+       right (or_assoc).  chain_ok: every selector within the guards of 12/13, an operator wherever a selector follows. *)
+Theorem planner_tree_is_the_chain : forall re_match parse_float (c : ctx) (d : db) (h : selector) (ao : andor) (s' : script) (t : ep) (cnt' : Z),
+  chain_ok (Script h ao (Some s')) ->
+  plan_complex None 0 None (Script h ao (Some s')) = Some (Some t, cnt') ->
+  ep_ok t /\ is_complex t = true
+  /\ deq (ep_sem re_match parse_float c d t) (traceql_sem re_match parse_float false c d (Script h ao (Some s'))).
+Proof. exact tree_is_chain. Qed.
+Print Assumptions planner_tree_is_the_chain.
+
+(* 19. traceql_correct, chains: for EVERY search  S1 op S2 op ... op Sk  (k >= 2, op in {&&, ||}, each selector any boolean expression
+       with or without aggregate filter, within the guards of 12/13), every window, limit >= 0 and every consistent attribute index with
+       at most 100 spans per trace in the window: the statement Plan + Process build, run by the evaluator up to its CTE index_grouped
+       with any sufficient statement fuel F (two nested sub-queries per && / || node: chain_need q <= F + 1), returns what the script
+       means (result_ok against traceql_sem: && = the traces matched by both sides with the union of their matched spans, || = by
+       either; all of them or the `limit` most recent).  A LIMIT inside an operand (seeded change C11-b) is what this excludes. *)
+Theorem traceql_correct_chain_any_fuel : forall re_match parse_float hash64 (c : ctx) (d : db),
+  rf_max c = 0%Z -> db_consistent c d -> spans_capped c d ->
+  forall (q : script) (n : nat) (s : select) (F : nat),
+  chain_ok q -> sc_tail q <> None ->
+  plan q MSearch c n = Ok s ->
+  (chain_need q <= S F)%nat ->
+  exists res, index_rows_gf re_match parse_float hash64 F c d s = Some res
+              /\ result_ok c (traceql_sem re_match parse_float false c d q) res = true.
+Proof. exact traceql_correct_chain_fuel. Qed.
+Print Assumptions traceql_correct_chain_any_fuel.
+
+(* 20. The same for the evaluator as the check runs it on the implementation's statements (index_rows_g: statement fuel 12): chains
+       whose planner tree nests at most five nodes below the root (six selectors joined by &&, or any mix of that depth). *)
+Theorem traceql_correct_chain : forall re_match parse_float hash64 (c : ctx) (d : db),
+  rf_max c = 0%Z -> db_consistent c d -> spans_capped c d ->
+  forall (q : script) (n : nat) (s : select),
+  chain_ok q -> sc_tail q <> None ->
+  plan q MSearch c n = Ok s ->
+  (chain_need q <= 13)%nat ->
+  exists res, index_rows_g re_match parse_float hash64 c d s = Some res
+              /\ result_ok c (traceql_sem re_match parse_float false c d q) res = true.
+Proof. exact TraceqlChainPlan.traceql_correct_chain. Qed.
+Print Assumptions traceql_correct_chain.
